@@ -110,9 +110,45 @@ def handlePhase (st : DState) (op : String) (j : Json) : Except String (Ledger Ã
       | _ => pure []
     let probe : Bool â† optField j "probe" false
     let (ledger', lv) := if probe then (st.ledger, []) else st.ledger.phase pre post evs
-    let fifo := if op == "update" then viol18Step env pre post else []
+    let fifo := if op == "update" then viol18Step env pre post ++ viol04Move env.isEmpty pre post else []
     let mon := monitorAll env post ++ viol04 cap post ++ viol04Step pre post ++ viol05Step isEl pre post evs ++ single ++ lv ++ fifo
     pure (ledger', Json.mkObj [("diff", strs d), ("mon", strs mon)])
+
+/-- transition probe: `transition_previous_to_next(sim, env, vehicle's activity, next)` for an
+    arbitrary proposed activity; outcome kind and (on success) the whole state are compared, all
+    state monitors run on the implementation's result -/
+def handleTransition (st : DState) (j : Json) : Except String Json := do
+  let oracle : Oracle â† optField j "oracle" {}
+  let pre : Sim â† getField j "pre"
+  let v : VehicleId â† getField j "veh"
+  let next : Act â† getField j "next"
+  let outcome : String â† getField j "outcome"
+  let env := oracle.env st.mechs
+  match pre.vehicle? v with
+  | none => pure (Json.mkObj [("diff", strs ["transition probe names a vehicle that is not in the state"]), ("mon", strs [])])
+  | some veh =>
+    let res := transition env { sim := pre } v veh.act next
+    let kindOk := res.kind == outcome || (res.kind == "error" && outcome == "raise")
+    let d0 := if kindOk then [] else
+      [s!"transition {veh.act.kind} -> {next.kind} of vehicle {v}: outcome model={res.kind} impl={outcome}"]
+    match res, (j.getObjVal? "post").toOption.getD .null with
+    | .ok _, .null => pure (Json.mkObj [("diff", strs d0), ("mon", strs [])])
+    | .ok w, pj => do
+      let post : Sim â† match fromJson? pj with
+        | .ok a => pure a
+        | .error e => throw s!"post: {e}"
+      let d := diffSim w.sim post
+      let cap (i : MechId) : Option Rat := (mechOf st.mechs i).map (Â·.capacity)
+      let mon := monitorAll env post ++ viol04 cap post
+      pure (Json.mkObj [("diff", strs (d0 ++ d.map fun x => s!"transition {veh.act.kind} -> {next.kind}: {x}")), ("mon", strs mon)])
+    | _, .null => pure (Json.mkObj [("diff", strs d0), ("mon", strs [])])
+    | _, pj => do
+      -- the implementation accepted what the model refuses: still judge the implementation's state
+      let post : Sim â† match fromJson? pj with
+        | .ok a => pure a
+        | .error e => throw s!"post: {e}"
+      let cap (i : MechId) : Option Rat := (mechOf st.mechs i).map (Â·.capacity)
+      pure (Json.mkObj [("diff", strs d0), ("mon", strs (monitorAll env post ++ viol04 cap post))])
 
 /-- function-level record: `traverse(route, dt)` -/
 def handleTraverse (j : Json) : Except String Json := do
@@ -126,9 +162,10 @@ def handleTraverse (j : Json) : Except String Json := do
     let exp : Route â† getField j "experienced"
     let rem : Route â† getField j "remaining"
     let km : Rat â† getField j "km"
+    let cellKm : Rat â† optField j "cellKm" (6 / 10000)
     let d := diffFlat (flatRoute "experienced" tr.experienced ++ flatRoute "remaining" tr.remaining ++ [("km", .q tr.km)])
                       (flatRoute "experienced" exp ++ flatRoute "remaining" rem ++ [("km", .q km)])
-    pure (Json.mkObj [("diff", strs d), ("mon", strs (violTraversal route dt exp rem km))])
+    pure (Json.mkObj [("diff", strs d), ("mon", strs (violTraversal route dt exp rem km cellKm))])
   | .error, "error" => pure (Json.mkObj [("diff", strs []), ("mon", strs [])])
   | m, k => pure (Json.mkObj [("diff", strs [s!"outcome: model={m.kind} impl={k}"]), ("mon", strs [])])
 
@@ -452,6 +489,10 @@ def handle (st : DState) (line : String) : DState Ã— Json :=
     | "cfg" =>
       match (getField j "mechs" : Except String (List Mech)) with
       | .ok ms => ({ mechs := ms, ledger := {} }, withId (Json.mkObj [("ok", true)]))
+      | .error e => (st, withId (Json.mkObj [("error", Json.str e)]))
+    | "transition" =>
+      match handleTransition st j with
+      | .ok r => (st, withId r)
       | .error e => (st, withId (Json.mkObj [("error", Json.str e)]))
     | "apply" | "update" | "tick" | "pre" =>
       match handlePhase st op j with
